@@ -698,6 +698,196 @@ fn exec_shutdown(hist: &[Req], k: usize, deadline: std::time::Duration) -> Bad {
     bad
 }
 
+/// Family A: requests whose client stops waiting. The actor is stalled on purpose (document 0 is
+/// open with a subscriber whose channel holds one event; the first write fills it, the second
+/// write makes the actor wait for room), then the requests `xs` are put into the queue and their
+/// futures dropped at once (a timeout, a `select!`, fire-and-forget), then the observing requests
+/// are queued; only then the subscriber is drained. The abandoned requests were issued before the
+/// observing ones, so the observers' replies and the store handed back by shutdown must reflect
+/// them exactly as if their replies had been awaited.
+fn exec_abandoned(xs: &[Req], deadline: std::time::Duration) -> Bad {
+    let mut bad: Bad = vec![];
+    let mut m: [Doc; 2] = Default::default();
+    m[0].exists = true;
+    let h = fresh_handle();
+    let subs = std::cell::RefCell::new(Subs::default());
+    let keep = std::cell::RefCell::new(vec![]);
+    // set-up (awaited): open document 0 with sync and a one-slot subscriber, first write
+    let (tx1, rx1) = async_channel::bounded(1);
+    block_on_park(h.open(ns_id(0), OpenOpts::default().sync().subscribe(tx1))).expect("open");
+    model_step(&mut m, Req::OpenSync(0), 0);
+    m[0].subscribers += 1;
+    set_clock(T0 + 10);
+    let r0 = block_on_park(issue(&h, Req::Insert(0), 0, &subs, &keep));
+    let w0 = model_step(&mut m, Req::Insert(0), 0);
+    if r0 != w0 {
+        bad.push(("reply_equals_model", json!({"request": "Insert", "set_up": true}), format!("set-up insert: impl={r0} model={w0}")));
+    }
+    let waker = std::task::Waker::noop();
+    let mut cx = std::task::Context::from_waker(waker);
+    // second write: its event does not fit, the actor waits inside this request
+    set_clock(T0 + 11);
+    let mut stall = issue(&h, Req::Delete(0), 1, &subs, &keep);
+    let stall_early = match stall.as_mut().poll(&mut cx) {
+        std::task::Poll::Ready(v) => Some(v),
+        std::task::Poll::Pending => None,
+    };
+    let w_stall = model_step(&mut m, Req::Delete(0), 1);
+    // the clock stays at this value until the end: whenever the actor gets to stamp the queued
+    // writes, it reads the same time (the model uses the same timestamp for all of them)
+    // abandoned requests: queued, then forgotten
+    for (j, x) in xs.iter().enumerate() {
+        let mut f = issue(&h, *x, 2 + j, &subs, &keep);
+        let _ = f.as_mut().poll(&mut cx);
+        drop(f);
+        model_step(&mut m, *x, 1);
+    }
+    // observers
+    let observers = [Req::GetState(0), Req::GetState(1), Req::GetExact(0), Req::GetMany(0), Req::GetMany(1)];
+    let mut futs: Vec<Pin<Box<dyn Future<Output = String> + '_>>> = vec![];
+    let mut wants = vec![];
+    for (j, o) in observers.iter().enumerate() {
+        futs.push(issue(&h, *o, 10 + j, &subs, &keep));
+        wants.push(model_step(&mut m, *o, 10 + j));
+    }
+    let mut outs: Vec<Option<String>> = vec![None; futs.len()];
+    let mut stall_out = stall_early;
+    let start = std::time::Instant::now();
+    loop {
+        // drain the subscriber: the actor gets going again
+        while rx1.try_recv().is_ok() {}
+        let mut pending = false;
+        if stall_out.is_none() {
+            match stall.as_mut().poll(&mut cx) {
+                std::task::Poll::Ready(v) => stall_out = Some(v),
+                std::task::Poll::Pending => pending = true,
+            }
+        }
+        for (f, o) in futs.iter_mut().zip(outs.iter_mut()) {
+            if o.is_none() {
+                match f.as_mut().poll(&mut cx) {
+                    std::task::Poll::Ready(v) => *o = Some(v),
+                    std::task::Poll::Pending => pending = true,
+                }
+            }
+        }
+        if !pending || start.elapsed() > deadline {
+            break;
+        }
+        std::thread::sleep(std::time::Duration::from_micros(200));
+    }
+    set_clock(NOW);
+    drop(futs);
+    drop(stall);
+    let xs_show = format!("{xs:?}");
+    match stall_out {
+        None => bad.push(("every_request_is_answered", json!({"request": "Delete", "abandoned_family": true}), format!("no reply to the stalled write within {deadline:?} (abandoned: {xs_show})"))),
+        Some(g) if strip_ts(&g) != strip_ts(&w_stall) => bad.push(("reply_equals_model", json!({"request": "Delete", "abandoned_family": true}), format!("stalled write: impl={g} model={w_stall}"))),
+        _ => {}
+    }
+    for ((o, g), w) in observers.iter().zip(outs).zip(wants) {
+        match g {
+            None => bad.push(("every_request_is_answered", json!({"request": format!("{o:?}").split('(').next().unwrap_or("").to_string(), "abandoned_family": true}), format!("no reply to {o:?} within {deadline:?} (abandoned before it: {xs_show})"))),
+            Some(g) => {
+                if strip_ts(&g) != strip_ts(&w) {
+                    bad.push((
+                        "replies_reflect_abandoned_requests",
+                        json!({"abandoned": xs.iter().map(|x| format!("{x:?}").split('(').next().unwrap_or("").to_string()).collect::<Vec<_>>(), "observer": format!("{o:?}").split('(').next().unwrap_or("").to_string()}),
+                        format!("requests {xs_show} were queued and their futures dropped; the later request {o:?} was answered {g}, with the abandoned requests applied the model answers {w}"),
+                    ));
+                }
+            }
+        }
+    }
+    match block_on_park(h.shutdown()) {
+        Err(e) => bad.push(("shutdown_hands_back_the_store", json!({"abandoned_family": true}), format!("shutdown failed: {e:#}"))),
+        Ok(store) => {
+            let mut s2 = Sut { store };
+            let listed: Vec<u8> = {
+                let mut v: Vec<u8> = s2.store.list_namespaces().expect("list").map(|r| if r.expect("ns").0 == ns_id(0) { 0 } else { 1 }).collect();
+                v.sort();
+                v
+            };
+            let want_listed: Vec<u8> = (0..2u8).filter(|d| m[*d as usize].exists).collect();
+            if listed != want_listed {
+                bad.push(("shutdown_store_equals_model", json!({"what": "documents", "abandoned_family": true}), format!("abandoned {xs_show}: documents in the returned store {listed:?}, model {want_listed:?}")));
+            }
+            for d in 0..2u8 {
+                if !m[d as usize].exists || !listed.contains(&d) {
+                    continue;
+                }
+                let dump = s2.dump(ns_id(d));
+                let w = m[d as usize].entries.dump();
+                if strip_ts(&show_entries(&dump)) != strip_ts(&show_entries(&w)) {
+                    bad.push(("shutdown_store_equals_model", json!({"what": "entries", "abandoned_family": true}), format!("abandoned {xs_show}: doc {d} of the returned store holds {}, model {}", show_entries(&dump), show_entries(&w))));
+                }
+                let pol = s2.store.get_download_policy(&ns_id(d)).expect("policy");
+                let want_pol = if m[d as usize].policy_set { the_policy() } else { Default::default() };
+                if pol != want_pol {
+                    bad.push(("shutdown_store_equals_model", json!({"what": "policy", "abandoned_family": true}), format!("abandoned {xs_show}: doc {d} policy {pol:?}, model {want_pol:?}")));
+                }
+                let peers: Option<Vec<[u8; 32]>> = s2.store.get_sync_peers(&ns_id(d)).expect("peers").map(|i| i.collect());
+                let want_peers = m[d as usize].peer_registered.then(|| vec![PEER]);
+                if peers != want_peers {
+                    bad.push(("shutdown_store_equals_model", json!({"what": "peers", "abandoned_family": true}), format!("abandoned {xs_show}: doc {d} peers {:?}, model {:?}", peers.as_ref().map(|v| v.len()), want_peers.as_ref().map(|v| v.len()))));
+                }
+            }
+        }
+    }
+    drop(keep);
+    drop(subs);
+    bad
+}
+
+fn run_abandoned_family(ctx: &Ctx, report: &mut Report) {
+    // (subscribe / unsubscribe are left out: their channel lives inside the request future, so an
+    // abandoned one is a subscriber whose receiver is gone, which the next event rightly removes)
+    let reqs: Vec<Req> = requests().into_iter().filter(|r| !matches!(r, Req::Subscribe(_) | Req::Unsubscribe(_))).collect();
+    let mut ordinal = 1u64 << 41;
+    let mut cases: Vec<Vec<Req>> = reqs.iter().map(|r| vec![*r]).collect();
+    for a in &reqs {
+        for b in &reqs {
+            cases.push(vec![*a, *b]);
+        }
+    }
+    if !ctx.quick() {
+        // three abandoned requests over the requests that change state
+        let ch: Vec<Req> = reqs.iter().copied().filter(|r| !matches!(r, Req::GetExact(_) | Req::GetMany(_) | Req::GetState(_) | Req::SyncInitial(_))).collect();
+        for a in &ch {
+            for b in &ch {
+                for c in &ch {
+                    cases.push(vec![*a, *b, *c]);
+                }
+            }
+        }
+    }
+    for xs in cases {
+        ordinal += 1;
+        if !ctx.mine(ordinal) {
+            continue;
+        }
+        report.evaluations += 1;
+        report.traces += 1;
+        report.transitions += xs.len() as u64 + 8;
+        report.nontrivial += 1;
+        report.count("histories_with_abandoned_requests", 1);
+        let case = json!({"abandoned_family": {"xs": xs}});
+        let go = |dl: u64| catch(|| exec_abandoned(&xs, std::time::Duration::from_secs(dl)));
+        let mut res = go(3);
+        if matches!(&res, Ok(b) if b.iter().any(|x| x.0 == "every_request_is_answered")) {
+            res = go(30);
+        }
+        match res {
+            Err(p) => report.violation("no_panic", json!({"abandoned_family": true}), case, format!("panic: {p}"), ordinal),
+            Ok(bad) => {
+                for (o, w, dd) in bad {
+                    report.violation(o, w, case.clone(), dd, ordinal);
+                }
+            }
+        }
+    }
+}
+
 fn shutdown_alphabet() -> Vec<Req> {
     vec![
         Req::OpenSync(0),
@@ -755,6 +945,7 @@ fn run_shutdown_family(ctx: &Ctx, report: &mut Report) {
 fn run(ctx: &Ctx, report: &mut Report) {
     crate::util::silence_panics();
     run_shutdown_family(ctx, report);
+    run_abandoned_family(ctx, report);
     let reqs = requests();
     report.fact("requests", json!(reqs.len()));
     let depth = if ctx.quick() { 4 } else { 6 };
@@ -795,6 +986,19 @@ fn run(ctx: &Ctx, report: &mut Report) {
 }
 
 fn replay(case: &Value) -> anyhow::Result<(bool, String)> {
+    if let Some(c) = case.get("abandoned_family") {
+        let xs: Vec<Req> = serde_json::from_value(c["xs"].clone())?;
+        return match catch(|| exec_abandoned(&xs, std::time::Duration::from_secs(30))) {
+            Err(p) => Ok((true, format!("panic: {p}"))),
+            Ok(bad) => {
+                let mut out = format!("abandoned requests: {xs:?}\n");
+                for (o, _, d) in &bad {
+                    out.push_str(&format!("FAILED {o}: {d}\n"));
+                }
+                Ok((!bad.is_empty(), out))
+            }
+        };
+    }
     if let Some(c) = case.get("shutdown_family") {
         let hist: Vec<Req> = serde_json::from_value(c["hist"].clone())?;
         let k = c["k"].as_u64().unwrap_or(0) as usize;
